@@ -184,6 +184,14 @@ def _same_outcome(ctx, case, what, op, e, l, w):
                                                "journal_tail": w.journal[-6:]})
         return False
     if e.kind == "value" and not model.same(e.value, l.value):
+        try:
+            bad = e.handle is not None and ctx.lib.validityerror(e.handle)
+        except AkError:
+            bad = False
+        if bad:
+            # the materialised array's own result fails the validity check (C11's business): no value to compare with
+            ctx.count("eager_result_invalid_(not_compared)")
+            return True
         ctx.violation("lazy-value-differs", {"op": ops_slim(op), "when": what, "eager": e.brief(), "lazy": l.brief(),
                                              "policy": case["policy"], "path": case["path"],
                                              "declared": [case["declare_form"], case["declare_length"]],
